@@ -18,12 +18,14 @@ def akai_str(s, n=12):
     return bytes(out)
 
 
-def sample_file(name, words, rate=44100, start=0, end=None, root=60):
-    """140-byte header + 16-bit words; `words` is a bytes object of even length"""
+def sample_file(name, words, rate=44100, start=0, end=None, root=60, loop_type=2, loops=()):
+    """140-byte header + 16-bit words; `words` is a bytes object of even length.
+    loop_type: 0 loop in release, 1 loop until release, 2 no loop, 3 play to end; loops: up to 8 (loop point, fine, length, time; time 9999 = hold)"""
     n = len(words) // 2
     end = n if end is None else end
-    h = bytes([3, 0, root]) + akai_str(name) + bytes(4) + bytes([2, 0, 0]) + bytes(4)
-    h += struct.pack("<III", n, start, end) + bytes(8 * 12) + bytes(4) + struct.pack("<H", rate)
+    h = bytes([3, 0, root]) + akai_str(name) + bytes(4) + bytes([loop_type, 0, 0]) + bytes(4)
+    table = b"".join(struct.pack("<IHIH", *lp) for lp in loops).ljust(8 * 12, b"\0")
+    h += struct.pack("<III", n, start, end) + table + bytes(4) + struct.pack("<H", rate)
     assert len(h) == 140
     return h + words
 
